@@ -96,6 +96,21 @@ def gen_mutants(relfile: str, src: str):
                             txt = ast.unparse(n).replace(":" + spec, ":" + ("03d" if spec == "02d" else "02d"))
                             add(n, txt, "fmt-spec")
                             break
+    if os.environ.get("MUT_NAMES"):
+        # wrong-variable mutants: a loaded local / parameter replaced by another one used in the same function; arguments of a call exchanged
+        out = []
+        for fn in funcs:
+            loads = [n for n in ast.walk(fn) if isinstance(n, ast.Name) and isinstance(n.ctx, ast.Load)]
+            local = sorted({n.id for n in ast.walk(fn) if isinstance(n, ast.Name) and isinstance(n.ctx, ast.Store)} | {a.arg for a in fn.args.args if a.arg != "self"})
+            for n in loads:
+                if n.id in local:
+                    for alt in local:
+                        if alt != n.id:
+                            add(n, alt, "name-swapped")
+            for n in ast.walk(fn):
+                if isinstance(n, ast.Call) and len(n.args) == 2 and not n.keywords and not any(isinstance(a, ast.Starred) for a in n.args):
+                    m = ast.Call(func=n.func, args=[n.args[1], n.args[0]], keywords=[])
+                    add(n, ast.unparse(m), "args-swapped")
     # deduplicate identical (span, text)
     seen, uniq = set(), []
     for m in out:
